@@ -166,6 +166,24 @@ pub fn main(args: &[String]) {
             let pos = Pos::of_board(&board);
             rec_mirror(&mut file, &pos, mm);
             n += 1;
+            // the leaf evaluation the search uses, at remaining depths 0..3, and the text rendering
+            if rng.chance(1, 3) {
+                let hm = board.halfmove_clock() as u64;
+                let r = guarded(|| {
+                    let mut b2 = pos.setup_clocks(hm, 1);
+                    let t = b2.turn();
+                    let sc: Vec<i64> = (0..4u8).map(|d| evaluate::score(&mut b2, &mut g, t, d) as i64).collect();
+                    (sc, evaluate::board_material_score(&b2) as i64)
+                });
+                if let Ok((sc, st)) = r {
+                    writeln!(file, "{}", json!({"t": "score", "pos": pos.to_json(), "hm": hm, "scores": sc, "static": st, "mm": mm})).unwrap();
+                    n += 1;
+                }
+                let text = format!("{}", board);
+                let rows: Vec<Vec<String>> = text.lines().map(|l| l.chars().map(|c| c.to_string()).collect()).collect();
+                writeln!(file, "{}", json!({"t": "render", "pos": pos.to_json(), "rows": rows})).unwrap();
+                n += 1;
+            }
             let side = board.turn();
             let moves = match guarded(|| g.generate_moves(&mut board, side)) {
                 Ok(m) => m,
